@@ -73,7 +73,7 @@ Definition w_uids : list (op * choice) :=
     (Append 1 INBOX [(4, false, false)], chp 1);
     (Create 1 1, ch0);
     (Rename 2 1 2, ch0);
-    (Copy 1 (Some [104; 101]) 2, ch0);
+    (Copy 1 (UUids [104; 101]) 2, ch0);
     (Status 1 2, ch0);
     (Fetch 1, ch0) ].
 
@@ -92,27 +92,42 @@ Lemma w_uids_outs :
            [(101, true, false, 1); (102, true, false, 2); (104, true, false, 4)] ].
 Proof. vm_compute. reflexivity. Qed.
 
-(* open finding C04-F1: a selection whose remembered name now denotes another
-   mailbox is reachable (RENAME INBOX by another connection).  The code keeps
-   serving such a connection from the other mailbox under the UIDVALIDITY it
-   was given; the model answers [OStaleCmd]/[PStale] and leaves the state
-   alone, i.e. this class of commands is *not covered* by the theorems about
-   what a selection is shown. *)
+(* fixed finding C04-F1: after RENAME INBOX by another connection the
+   connection that had INBOX selected is answered NO (its mailbox is gone),
+   and BYE by its next mailbox-independent command; the connection that
+   renames the INBOX it has selected itself is not told by its own RENAME *)
 Definition w_stale : list (op * choice) :=
   [ (Append 1 INBOX [(1, false, false)], ch0);
     (Select 0 INBOX false, ch0);
-    (Rename 1 INBOX 1, ch0);
-    (Append 1 INBOX [(2, false, false)], ch0) ].
+    (Select 2 INBOX false, ch0);
+    (Rename 2 INBOX 1, ch0);
+    (Append 1 INBOX [(2, false, false)], ch0);
+    (Fetch 0, ch0); (Noop 2, ch0); (Status 0 INBOX, ch0) ].
 
-Lemma w_stale_reachable :
-  exists tr s, resolve (run init tr) s = RStale /\
-    snd (step (run init tr) (Fetch s) ch0) = OStaleCmd /\
-    exists sl i b, lookup s (sess (run init tr)) = Some sl /\
-      find_box (run init tr) (s_name sl) = Some (i, b) /\ i <> s_bid sl /\
-      (exists m, In m (b_msgs b) /\ m_uid m = 101 /\ m_mark m = 2) /\
-      In 101 (s_view sl).
-Proof.
-  exists w_stale, 0. vm_compute. split; [reflexivity|]. split; [reflexivity|].
-  do 3 eexists. split; [reflexivity|]. split; [reflexivity|]. split; [discriminate|].
-  split; [|left; reflexivity]. eexists. split; [left; reflexivity|]. split; reflexivity.
-Qed.
+Lemma w_stale_outs :
+  skipn 3 (outs w_stale) =
+  [ OOk PNone; OAppend 1 [49; 48; 49] PNone; ONo; ONo; OStatus 1 1 1 102 PBye ].
+Proof. vm_compute. reflexivity. Qed.
+
+(* DELETE + CREATE restart the UIDs under a new identity; a backend-read-only
+   mailbox refuses APPEND/COPY and is selected read-only; sequence-number
+   COPY; files adopted by a maildir reset (one in new/, one in cur/) *)
+Definition w_more : list (op * choice) :=
+  [ (Create 1 1, ch0); (Append 1 1 [(1, false, false); (2, false, false)], ch0);
+    (Delete 1 1, ch0); (Create 1 1, ch0); (Append 1 1 [(3, false, false)], ch0);
+    (Status 1 1, ch0);
+    (MakeRo 1, ch0); (Append 1 1 [(4, false, false)], ch0); (Select 1 1 false, ch0);
+    (Copy 1 (USeqs [1]) INBOX, ch0); (Copy 1 (USeqs [1; 5]) 1, ch0);
+    (Adopt INBOX [(7, false, true); (8, true, false)], ch0);
+    (Select 2 INBOX false, ch0); (Fetch 2, ch0) ].
+
+Lemma w_more_outs :
+  outs w_more =
+  [ OOk PNone; OAppend 1 [49; 48; 49; 58; 49; 48; 50] PNone; OOk PNone; OOk PNone;
+    OAppend 2 [49; 48; 49] PNone; OStatus 2 1 1 102 PNone;
+    OOk PNone; ONo; OSelect 2 true 1 1 102;
+    OCopy (Some (0, [49; 48; 49], [49; 48; 49])) (PSync (mkSync 0 None None)); ONo;
+    OOk PNone; OSelect 0 false 3 2 104;
+    OFetch (PSync (mkSync 0 None None))
+           [(101, true, false, 3); (102, true, false, 7); (103, false, true, 8)] ].
+Proof. vm_compute. reflexivity. Qed.
